@@ -55,6 +55,7 @@ struct Stats {
     formatting_checked: usize,
     hover_checked: usize,
     defref_checked: usize,
+    abrupt_ends: usize,
     pos_classes: BTreeMap<String, usize>,
     step_kinds: BTreeMap<&'static str, usize>,
     probe_request_while_analyzer_unwinding: usize,
@@ -86,6 +87,9 @@ fn run_history(hi: usize, h: &History, specs: &[SchedSpec], stats: &mut Stats, f
     let msgs = h.to_messages();
     stats.histories += 1;
     stats.steps += h.steps.len();
+    if h.abrupt_end {
+        stats.abrupt_ends += 1;
+    }
     for s in &h.steps {
         *stats
             .step_kinds
@@ -173,6 +177,7 @@ fn merge(a: &mut Stats, b: Stats) {
     a.formatting_checked += b.formatting_checked;
     a.hover_checked += b.hover_checked;
     a.defref_checked += b.defref_checked;
+    a.abrupt_ends += b.abrupt_ends;
     for (k, v) in b.pos_classes {
         *a.pos_classes.entry(k).or_default() += v;
     }
@@ -427,6 +432,7 @@ fn run(tier: Tier, seed: u64) -> i32 {
                 "executions_with_an_analysis_thread_panic": stats.executions_with_thread_panic,
                 "channel_endpoint_drops_deferred_during_unwinding": stats.deferred_drops,
                 "main_task_panics": stats.main_panics,
+                "histories_ending_with_the_client_vanishing_(transport_closed)": stats.abrupt_ends,
                 "deadlocks": stats.deadlocks,
             },
             "main_task_crash_sites": stats.crash_sites,
